@@ -234,6 +234,11 @@ func genCase(t *rapid.T) Case {
 			op.Want = genWant(t, "live", "off")
 		case "fail":
 			op.N = rapid.SampledFrom([]int{1, 1, 1, 1, 1, 1, 2, 2, 3, 3, 4}).Draw(t, "n")
+		case "restart", "handover":
+			// every other reload meets a failing storage read
+			if rapid.Bool().Draw(t, "readFault") {
+				op.N = rapid.IntRange(1, 60).Draw(t, "readN")
+			}
 		}
 		c.Ops = append(c.Ops, op)
 		// the background store check often is the first thing that runs after a restart
@@ -604,6 +609,10 @@ func keyClass(key string) string {
 		return "weight"
 	case key == "config":
 		return "config"
+	case strings.HasPrefix(key, "raft/r/"):
+		return "region"
+	case key == "raft":
+		return "meta"
 	}
 	return "other"
 }
@@ -624,6 +633,17 @@ type fixture struct {
 	// member through the region syncer (mirrored by the harness), stores do not.
 	members [2]*core.BasicCluster
 	cur     int
+	// storage READ fault during the next reload: readN > 0 = the (1 + (readN-1) mod R)-th
+	// Load / LoadRange of the reload fails once, R = reads of a fault-free reload of this state
+	readN          int
+	reads          *readFault
+	reloadFailed   bool   // the faulted reload failed as a whole and was retried without fault
+	reloadFaultKey string // the key whose read failed
+}
+
+type readFault struct {
+	n, count int
+	firedKey string
 }
 
 func newFixture(c Case) (*fixture, error) {
@@ -652,6 +672,13 @@ func newFixture(c Case) (*fixture, error) {
 	}
 	f.fkv.SetGate(func(kind, key string) error {
 		if kind != "save" && kind != "remove" {
+			if r := f.reads; r != nil {
+				r.count++
+				if r.n > 0 && r.count == r.n {
+					r.firedKey = key
+					return faultkv.ErrInjected
+				}
+			}
 			return nil
 		}
 		p := f.pending
@@ -708,21 +735,55 @@ func (f *fixture) handover() error {
 	return f.start()
 }
 
+// load is what RaftCluster.Start does to serve: InitCluster on the member's cache + LoadClusterInfo.
+func (f *fixture) load(bc *core.BasicCluster) (*cluster.RaftCluster, context.CancelFunc, error) {
+	ctx, cancel := context.WithCancel(context.Background())
+	rc := cluster.NewRaftCluster(ctx, "/pd/c14", 1, nil, nil, nil)
+	rc.InitCluster(mockid.NewIDAllocator(), f.opt, core.NewStorage(f.fkv), bc)
+	got, err := rc.LoadClusterInfo()
+	if err == nil && got == nil {
+		err = fmt.Errorf("LoadClusterInfo found no cluster meta")
+	}
+	if err != nil {
+		cancel()
+		return nil, nil, err
+	}
+	return rc, cancel, nil
+}
+
 func (f *fixture) start() error {
 	f.cancel()
-	ctx, cancel := context.WithCancel(context.Background())
-	f.cancel = cancel
+	f.cancel = func() {}
 	f.bc = f.members[f.cur]
-	rc := cluster.NewRaftCluster(ctx, "/pd/c14", 1, nil, nil, nil)
-	rc.InitCluster(mockid.NewIDAllocator(), f.opt, core.NewStorage(f.fkv), f.bc)
-	got, err := rc.LoadClusterInfo()
+	f.reloadFailed, f.reloadFaultKey = false, ""
+	if n := f.readN; n > 0 {
+		f.readN = 0
+		// how many reads a fault-free reload of this state issues (on a scratch cache)
+		f.reads = &readFault{}
+		_, c0, err := f.load(core.NewBasicCluster())
+		total := f.reads.count
+		f.reads = nil
+		if err != nil {
+			return fmt.Errorf("a reload without any fault failed: %v", err)
+		}
+		c0()
+		f.reads = &readFault{n: 1 + (n-1)%total}
+		rc, cancel, err := f.load(f.bc)
+		f.reloadFaultKey = f.reads.firedKey
+		f.reads = nil
+		if err == nil {
+			// served despite the failed read: the caller's comparison decides whether that is right
+			f.rc, f.cancel = rc, cancel
+			return nil
+		}
+		// failed as a whole: nothing is served by that object; the caller retries
+		f.reloadFailed = true
+	}
+	rc, cancel, err := f.load(f.bc)
 	if err != nil {
-		return err
+		return fmt.Errorf("a reload without any fault failed: %v", err)
 	}
-	if got == nil {
-		return fmt.Errorf("LoadClusterInfo found no cluster meta")
-	}
-	f.rc = rc
+	f.rc, f.cancel = rc, cancel
 	return nil
 }
 
@@ -1040,17 +1101,32 @@ func runHistory(c Case, spinners int) (vkit.Info, error) {
 						differs = true
 					}
 				}
+				f.readN = op.N
 				terms[1-f.cur]++
 				info.ClassIf(differs, "stale-cache-differs-at-handover")
 				info.ClassIf(terms[1-f.cur] > 1, "handover-round-trip")
 				if err := f.handover(); err != nil {
-					return info, fmt.Errorf("%s: harness: %v", at, err)
+					return info, fmt.Errorf("%s: %v", at, err)
 				}
 				info.Class("handover")
-			} else if err := f.restart(); err != nil {
-				return info, fmt.Errorf("%s: harness: %v", at, err)
+			} else {
+				f.readN = op.N
+				if err := f.restart(); err != nil {
+					return info, fmt.Errorf("%s: %v", at, err)
+				}
 			}
 			rc = f.rc
+			if f.reloadFaultKey != "" {
+				at += fmt.Sprintf(" [read of %s failed during the load]", f.reloadFaultKey)
+				info.Class("reload-read-fault-on-" + keyClass(f.reloadFaultKey) + "-key")
+				if f.reloadFailed {
+					at += " -> load failed as a whole, retried"
+					info.Class("reload-failed-then-retried")
+				} else {
+					at += " -> load succeeded"
+					info.Class("reload-succeeded-despite-read-fault")
+				}
+			}
 			m.cached = map[uint64]int{}
 			m.orphan = false
 			offlineWithPeers := false
